@@ -486,6 +486,32 @@ func reHoldFunc(w *World, info *types.Info, fr *FuncRef, sp holdSpec, acquire, r
 		})
 	})
 	bad := 0
+	// user code (Query.Execute) may panic: at that point the deferred operations registered so far
+	// must already restore the exit state, otherwise the permit is lost with the panicking task
+	d.Walk(func(_ *cfg.Block, n ast.Node, before Facts) {
+		inspectPost(n, func(x ast.Node) {
+			c, ok := x.(*ast.CallExpr)
+			if !ok {
+				return
+			}
+			f := callee(info, c)
+			if f == nil || f.Name() != "Execute" {
+				return
+			}
+			s := before
+			for i := len(defers) - 1; i >= 0; i-- {
+				if s[fmt.Sprintf("deferred:%d", i)] {
+					s = apply(s, defers[i].call, "", c.Pos(), false)
+				}
+			}
+			for v, st := range sp.exit {
+				if !s[st+":"+v] {
+					bad++
+					w.violation(sp.label+"|panic-unsafe:"+v, c.Pos(), fmt.Sprintf("if Query.Execute panics here, the deferred operations registered so far leave %s not %s (state after defers %s): the hand-back of the semaphore permit is not deferred, so a panicking query leaks or double-counts a permit", v, st, s.String()))
+				}
+			}
+		})
+	})
 	for _, e := range d.Exits(info, body.End()) {
 		if e.Kind == "panic" {
 			continue
